@@ -558,7 +558,11 @@ func runHistory(c *lib.Ctx, id int, ops []string) {
 			in.Wait()
 			s := emit(gen, "wait-return", "")
 			traceMu.Lock()
-			(*w)[idx].returned = s
+			// (a waiter that returns after its history's list was judged and
+			// emptied has nothing left to record)
+			if idx < len(*w) && (*w)[idx].gen == gen {
+				(*w)[idx].returned = s
+			}
 			traceMu.Unlock()
 		}(ni, nc.Gen)
 		return true
